@@ -15,7 +15,17 @@ import concurrent.futures as cf
 from common import (SPEC, VH, CLI, Report, ToolError, build_harness, build_cli, run_tlc, seed, tier, workdir)
 from pure_engine import parse_emitted
 
-NL = 39  # catalogue length of MCPp.tla (checked against the emitted cases)
+NL = 40  # catalogue length of MCPp.tla (checked against the emitted cases)
+# the catalogue of MCPp.tla (kept in step with it: check_c01 compares it with the emitted cases)
+MCPP_CATALOGUE = [
+    "x", "", "  y", "x A y B", "AB", " \t",
+    "-TXTPP#run sh pa", "-TXTPP#run echo a", "  -TXTPP#run sh ab", "-TXTPP#run true", "-TXTPP#run sh x3",
+    "TXTPP#run echo a", "\t// TXTPP#run sh cr", "-TXTPP#run cat t1",
+    "TXTPP#include p1", "TXTPP#include p2", "  TXTPP#include p3", "TXTPP#include e0", "TXTPP#include nx",
+    "TXTPP#include d1", "TXTPP#include pc", "-TXTPP#after d1",
+    "TXTPP#tag A", "TXTPP#tag B", "TXTPP#tag AB",
+    "-TXTPP#write q", "-TXTPP#write", "-", "-A", " r", "-TXTPP#run", "-TXTPP#temp bad.txtpp",
+    "// TXTPP#temp t1", "// c", "//", "   d", "-TXTPP#", "TXTPP#runx", "-TXTPP#write  TXTPP#tag A", "TXTPP#include p4"]
 
 PP_CFG = """SPECIFICATION Spec
 CONSTANTS
@@ -28,7 +38,7 @@ CHECK_DEADLOCK FALSE
 
 ENV_FILES = [
     dict(path="b/p1", text="a\n"), dict(path="b/p2", text="a"), dict(path="b/p3", text="a\n\nb\n"),
-    dict(path="b/e0", text=""), dict(path="b/pc", text="a\r\nb\r\n"),
+    dict(path="b/e0", text=""), dict(path="b/pc", text="a\r\nb\r\n"), dict(path="b/p4", text="c\r\n"),
     dict(path="b/d1.txtpp", text="D\n"),
     dict(path="b/pa", text="printf a\n"), dict(path="b/ab", text="printf 'a\\nb\\n'\n"),
     dict(path="b/cr", text="printf 'a\\r\\nb\\r\\n'\n"), dict(path="b/x3", text="echo zz\nexit 3\n"),
@@ -38,10 +48,14 @@ ENV_NAMES = {f["path"][2:] for f in ENV_FILES}
 
 
 def tlc_cases(wd, maxlen, firsts, name="pp"):
+    """firsts: first-line indices (0 = the empty source); an entry may be a pair (first, maxlen) to override the bound"""
     def one(first):
-        cfg = os.path.join(wd, f"{name}-{first}.cfg")
-        open(cfg, "w").write(PP_CFG.format(maxlen=maxlen, first=first))
-        return run_tlc("MCPp.tla", cfg, f"{name}-{first}", workers=1, timeout=4 * 3600, java_opts="-Xss512m -Xmx3g")
+        ml = maxlen
+        if isinstance(first, tuple):
+            first, ml = first
+        cfg = os.path.join(wd, f"{name}-{first}-{ml}.cfg")
+        open(cfg, "w").write(PP_CFG.format(maxlen=ml, first=first))
+        return run_tlc("MCPp.tla", cfg, f"{name}-{first}-{ml}", workers=1, timeout=6 * 3600, java_opts="-Xss512m -Xmx3g")
     with cf.ThreadPoolExecutor(max_workers=14) as ex:
         rs = list(ex.map(one, firsts))
     return rs
@@ -248,6 +262,8 @@ def step_traces(rep, wd, cases, rng, n, key_prefix="pptrace"):
     res = vh_cases(vcases, wd, key_prefix)
     recs = []
     for (c, le, tr), r in zip(meta, res):
+        if r.get("skipped"):
+            continue   # the runner stopped after too many hung / panicked runs (each one already reported)
         st = r["steps"][0]
         if st["verdict"] in ("panic", "hang"):
             continue
@@ -321,6 +337,8 @@ def observe(rng, wd, sources, name, variants):
     res = vh_cases(cs, wd, name)
     recs = []
     for (lines, le, tr), r in zip(meta, res):
+        if r.get("skipped"):
+            continue   # the runner stopped after too many hung / panicked runs (each one already reported)
         st = r["steps"][0]
         tree = st["tree"]
         temps = {}
@@ -342,14 +360,23 @@ def check_c01():
     wd = workdir("C01")
     rng = random.Random(seed())
     quick = tier() == "quick"
-    maxlen = 3 if quick else 4
+    maxlen = 3
     firsts = list(range(0, NL + 1))
     if not quick:
-        pass
+        # every source of <= 3 lines, plus every source of 4 lines that starts with one of four seeded catalogue lines
+        firsts += [(f, 4) for f in sorted(rng.sample(range(1, NL + 1), 4))]
     states, cases = spec_run(rep, "C01", wd, maxlen, firsts)
+    seen_src = set()
+    uniq = []
+    for c in cases:
+        k = tuple(c["ix"])
+        if k not in seen_src:
+            seen_src.add(k)
+            uniq.append(c)
+    cases = uniq
     cat = catalogue_from(cases)
-    if len(cat) != NL:
-        raise ToolError(f"catalogue length {len(cat)} != {NL}")
+    if cat != MCPP_CATALOGUE:
+        raise ToolError(f"the catalogue of MCPp.tla and MCPP_CATALOGUE in lib/pp_engine.py differ: {[(a, b) for a, b in zip(cat, MCPP_CATALOGUE) if a != b]} {len(cat)} {len(MCPP_CATALOGUE)}")
     # S->I: every case under LF/CRLF x trailing on/off
     cs, meta = [], []
     for ci, c in enumerate(cases):
@@ -373,6 +400,8 @@ def check_c01():
     classes = set()
     executed = 0
     for (c, le, tr), r in zip(meta, res):
+        if r.get("skipped"):
+            continue   # the runner stopped after too many hung / panicked runs (each one already reported)
         exp = expected_of(c, le, tr)
         step = r["steps"][0]
         executed += 1
@@ -396,9 +425,9 @@ def check_c01():
         states=states, transitions=states, traces_validated_against_impl=validated + n_traced,
         line_loop_traces_validated=n_traced, line_loop_events_validated=step_events,
         sources_enumerated=len(cases), builds_compared=executed, cli_builds=len(cli_idx),
-        abstract_classes_exercised=len(classes), max_source_lines=maxlen, catalogue_lines=NL,
+        abstract_classes_exercised=len(classes), max_source_lines=max(len(c["src"]) for c in cases), catalogue_lines=NL,
         exhaustive=True,
-        rule=f"every source of at most {maxlen} lines over the {NL}-line catalogue (all seven directives, single/multi-line forms, "
+        rule=f"every source of at most {maxlen} lines (thorough: plus all 4-line sources starting with four seeded lines) over the {NL}-line catalogue (all seven directives, single/multi-line forms, "
              "prefixes, indentation, tags, temp, dependency include) x LF/CRLF x trailing on/off, compared byte for byte with PpCore.tla; "
              "distinct classes = (error kind, first-pass result, #temps, #commands, empty output, set of directive types); plus random "
              "4-9 line sources observed and validated by TLC (PpObs.tla)",
@@ -419,7 +448,10 @@ def check_c12():
     maxlen = 3
     firsts = list(range(0, NL + 1))
     if quick:
-        firsts = [0] + sorted(rng.sample(range(1, NL + 1), 13))
+        # a seeded sample of first lines, plus every first line through which foreign terminators can enter:
+        # tags (stored content), includes of LF / CRLF / multi-line files, CRLF command output, write, temp bodies
+        relevant = [i + 1 for i, l in enumerate(MCPP_CATALOGUE) if any(k in l for k in ("TXTPP#tag", "include p", "sh cr", "sh ab", "TXTPP#write", "TXTPP#temp t1"))]
+        firsts = [0] + sorted(set(rng.sample(range(1, NL + 1), 8)) | set(relevant))
     states, cases = spec_run(rep, "C12", wd, maxlen, firsts)
     cat = catalogue_from(cases) if len(firsts) == NL + 1 else None
     cs, meta = [], []
@@ -437,6 +469,8 @@ def check_c12():
     scanned = 0
     nontrivial = set()
     for (c, le, mix, lt), r in zip(meta, res):
+        if r.get("skipped"):
+            continue   # the runner stopped after too many hung / panicked runs (each one already reported)
         st = r["steps"][0]
         exp = expected_of(c, le, True)
         if st["verdict"] != "ok":
@@ -496,6 +530,8 @@ def check_c13():
     pairs = 0
     differing = 0
     for i, (c, le, lt) in enumerate(meta):
+        if res[2 * i].get("skipped") or res[2 * i + 1].get("skipped"):
+            continue
         on, off = res[2 * i]["steps"][0], res[2 * i + 1]["steps"][0]
         pairs += 1
         key = f"tn:{json.dumps(c['src'])}|{le!r}"
@@ -603,6 +639,8 @@ def check_c16():
     res = vh_cases(cs, wd, "c16")
     counts = dict(identity=0, escape=0, order=0)
     for (kind, t, le, tr), r in zip(meta, res):
+        if r.get("skipped"):
+            continue   # the runner stopped after too many hung / panicked runs (each one already reported)
         st = r["steps"][0]
         out = st["tree"].get("b/s.txt", {}).get("text")
         counts[kind] += 1
